@@ -17,7 +17,8 @@ Import ListNotations.
 
 (* ---------------- inputs ---------------- *)
 
-Inductive listener := LPlain | LShaped | LTls.        (* plain TCP, trafficshape.Listener, tls.NewListener *)
+Inductive listener := LPlain | LShaped | LTls | LShapedTls.
+  (* plain TCP, trafficshape.Listener, tls.NewListener, trafficshape.Listener over tls.NewListener *)
 Inductive tunnel := TunTls | TunPlain | NoTunnel.     (* what follows the CONNECT 200; NoTunnel = transparent TLS *)
 Inductive form := FOrigin | FAbsHttp | FAbsHttps | FNoHost.
 Record inner := mkInner { i_form : form; i_hijack : bool }.
@@ -33,7 +34,9 @@ Record rfields := mkF
   { f_scheme : scheme;            (* req.URL.Scheme seen by the request modifier *)
     f_host : host;                (* req.URL.Host *)
     f_secure : bool;              (* Session().IsSecure() *)
-    f_tls : bool;                 (* req.TLS != nil *)
+    f_tls : bool;                 (* req.TLS is the state of the connection the request was read from:
+                                     non-nil, handshake complete, and version, cipher suite and server
+                                     name equal to what the client side of that connection negotiated *)
     f_sess : nat;                 (* session, first-occurrence index *)
     f_up : upstream;              (* which origin received the request *)
     f_status : option nat;        (* status the client read on its current connection *)
@@ -68,7 +71,11 @@ Definition stops (q : inner) : bool :=
    argument.  [ctls] = the client speaks TLS on this connection (decides
    whether bytes written to the hijacked conn reach it intact). *)
 Definition handle_one (ck : conn_kind) (ctls : bool) (st : sess) (q : inner) : sess * rfields :=
-  let tlsc := is_tls ck in                                       (* 461-476 *)
+  let tlsc := is_tls ck in                                       (* 461-476: ConnectionState() is taken
+                                                                    AFTER readRequest returned, so the
+                                                                    handshake (lazy on a transparent TLS
+                                                                    listener) is complete: the state is
+                                                                    the connection's negotiated one *)
   let st1 := if tlsc then mkSess true (sconn st) else st in      (* MarkSecure *)
   let sch := if secure st1 then Https else Http in               (* 478-482 *)
   let h := form_host (i_form q) in
@@ -102,14 +109,14 @@ Fixpoint loop (fx : bool) (c0 : conn_kind) (ctls : bool) (st : sess) (i : nat) (
   end.
 
 Definition accepted (l : listener) : conn_kind :=
-  match l with LPlain => Raw | LShaped => ShapedRaw | LTls => Tls end.
+  match l with LPlain => Raw | LShaped => ShapedRaw | LTls => Tls | LShapedTls => ShapedTls end.
 
 Definition run (fx : bool) (l : listener) (t : tunnel) (reqs : list inner) : list obs :=
   let c0 := accepted l in
   let st0 := mkSess false c0 in
   match l, t with
-  | LTls, NoTunnel => loop fx c0 true st0 1 reqs
-  | LTls, _ => []
+  | LTls, NoTunnel | LShapedTls, NoTunnel => loop fx c0 true st0 1 reqs
+  | LTls, _ | LShapedTls, _ => []
   | _, NoTunnel => []
   | _, TunPlain =>                                               (* 367-369: handle(ctx, conn, brw) *)
       let '(st1, f0) := handle_connect c0 st0 in
@@ -231,8 +238,8 @@ Definition connect_fail (f : rfields) : option clause :=
 
 Definition c05_fail (l : listener) (t : tunnel) (reqs : list inner) (os : list obs) : option clause :=
   match l, t with
-  | LTls, NoTunnel => inner_fail true 1 false reqs os
-  | LTls, _ | _, NoTunnel => None
+  | LTls, NoTunnel | LShapedTls, NoTunnel => inner_fail true 1 false reqs os
+  | LTls, _ | LShapedTls, _ | _, NoTunnel => None
   | _, _ =>
       match os with
       | Seen 0 f0 :: os' =>
